@@ -81,7 +81,7 @@ def run(ctx):
     exe = vlib.build_engine("xemu", "plain")
     scratch = vlib.scratch_dir("C02")
     env = vlib.scrub_env(scratch=scratch)
-    deadline = ctx["deadline"] or (400 if tier == "quick" else 2400)
+    deadline = ctx["deadline"] or (400 if tier == "quick" else 4200)
     nsh = 198
     args = [["--tier", tier, "--classes", "int", "--path", "emulate", "--shard", i, "--nshards", nsh, "--deadline", int(deadline)] for i in range(nsh)]
     res = vlib.run_shards(exe, args, env, timeout=deadline * 1.3 + 60, label="xemu")
